@@ -16,7 +16,7 @@ def configs(ctx):
     if ctx.thorough:
         types, cnts, budgets = TYPES, [1, 2, 3, 4, 5, 6, 8, 12, 20], list(range(1, 25)) + [488]
     else:
-        types, cnts, budgets = ['SINT', 'INT', 'DINT', 'LREAL'], [1, 2, 3, 5, 8, 12], list(range(1, 20, 1))
+        types, cnts, budgets = ['SINT', 'INT', 'DINT', 'LREAL', 'ULINT'], [1, 2, 3, 5, 8, 12], list(range(1, 20, 1))
     for ty in types:
         for cnt in cnts:
             for maxb in budgets:
